@@ -1,7 +1,7 @@
 (* Props/C14.v — C14: a truncated packet is reported as an error, never as a shorter valid one.
    Theorems only. *)
 From NF Require Import Base Nom Types Layout Value V9 Ipfix Parser.
-From NF Require Import LayoutFacts C03Proofs C03Inst C14Proofs RunFacts CutFacts VarFacts.
+From NF Require Import LayoutFacts C03Proofs C03Inst C14Proofs RunFacts CutFacts CutAnyFacts VarFacts.
 Open Scope list_scope.
 
 (* V5 / V7: fewer bytes than 24 + 48*count (52*count): one Error whose remaining is the buffer,
@@ -48,6 +48,26 @@ Theorem C14_v9_packet : forall puf allow s x p s' c,
 Proof. exact v9_step_cut. Qed.
 Print Assumptions C14_v9_packet.
 
+(* V5, V7, IPFIX, whole packet: a packet / message that parse_bytes accepts (ending its buffer),
+   cut at ANY point strictly inside: one Error whose remaining is the truncated packet, and the
+   parser state (all four caches) is exactly what it was -- in particular no template set of a
+   truncated IPFIX message is learned.  Derived from the accepted result alone: no hypothesis on
+   the bytes. *)
+Theorem C14_packet_cut : forall puf allow s x e s' c,
+  parse_one puf allow s x = StOk e [] s' -> (forall p, e <> PV9 p) ->
+  (0 < c < length x)%nat ->
+  exists err, parse_one puf allow s (firstn c x) = StErr (PErr err (firstn c x)) s.
+Proof. exact fixed_or_ipfix_cut. Qed.
+Print Assumptions C14_packet_cut.
+
+(* the same through parse_bytes: the result of the truncated buffer is that one Error *)
+Theorem C14_buffer_cut : forall puf allow s x e s' c,
+  parse_one puf allow s x = StOk e [] s' -> (forall p, e <> PV9 p) ->
+  (0 < c < length x)%nat ->
+  exists err, parse_bytes puf allow s (firstn c x) = Some [(PErr err (firstn c x), s)].
+Proof. exact fixed_or_ipfix_cut_bytes. Qed.
+Print Assumptions C14_buffer_cut.
+
 (* packets before the truncated one are reported unchanged: the error element of the tail is
    appended to their results (instance of C11's concatenation theorem) *)
 Theorem C14_after_prefix : forall puf allow s a b ra rb,
@@ -74,3 +94,20 @@ Example C14_example :
       | Some [(PV5 _, _); (PErr (NPartial 5 _ _) rem, _)] => rem = cutx
       | _ => False end).
 Proof. vm_compute. repeat split; try reflexivity; lia. Qed.
+
+(* non-vacuity of C14_packet_cut / C14_buffer_cut: an IPFIX message carrying a template set is
+   accepted and the template learned; cut at each of the 27 points strictly inside, the result is
+   one Error carrying the truncated bytes and the parser is still in the empty state (the template
+   set before the cut was not learned) *)
+Example C14_cut_example :
+  let x := [x00; x0a; x00; x1c; x00; x00; x00; x01; x00; x00; x00; x02; x00; x00; x00; x03;
+            x00; x02; x00; x0c; x01; x00; x00; x01; x00; x07; x00; x02] in
+  (match parse_one true (allow_list default_allowed) empty_state x with
+   | StOk (PIx _) [] s' => lookup 256 (ix_t (stx s')) <> None
+   | _ => False end)
+  /\ forallb (fun c => match parse_bytes true (allow_list default_allowed) empty_state (firstn c x) with
+                       | Some [(PErr _ rem, s)] =>
+                           andb (N.eqb (N.of_nat (length rem)) (N.of_nat c))
+                                (match lookup 256 (ix_t (stx s)) with None => true | Some _ => false end)
+                       | _ => false end) (seq 1 27) = true.
+Proof. vm_compute. split; [discriminate|reflexivity]. Qed.
